@@ -160,10 +160,10 @@ func (h c20Hop) String() string {
 		return g.String() + "!" + hx(h.stale)
 	}
 	if h.kind == 'h' {
-		if len(h.existing) == 0 {
-			return "h:-"
+		if h.existing == nil {
+			return "h:none"
 		}
-		return "h:" + hx(h.existing[0])
+		return "h:" + hxs(h.existing) // all values of the pre-existing header; "-" = an empty value
 	}
 	if h.existing == nil {
 		return "g:none"
@@ -178,8 +178,10 @@ func (h c20Hop) String() string {
 func c20RunHop(ctx context.Context, h c20Hop) (context.Context, error) {
 	if h.kind == 'h' {
 		req := httptest.NewRequest("GET", "http://example/", nil)
-		if len(h.existing) > 0 {
-			req.Header.Set(user.OrgIDHeaderName, h.existing[0])
+		if h.existing != nil {
+			// the header as some earlier handler / proxy left it: possibly present with an empty value
+			// (out.Header.Set(name, in.Header.Get(name)) for an unauthenticated request) or multi-valued
+			req.Header[http.CanonicalHeaderKey(user.OrgIDHeaderName)] = append([]string{}, h.existing...)
 		}
 		if err := user.InjectOrgIDIntoHTTPRequest(ctx, req); err != nil {
 			return nil, err
@@ -348,10 +350,30 @@ func runC20(e *env) {
 				case 2:
 					if h.kind == 'g' {
 						h.existing = []string{}
+					} else {
+						h.existing = []string{""} // header present, value empty
 					}
 				case 3:
 					if h.kind == 'g' && id != nil {
 						h.existing = []string{*id, *id}
+					} else if h.kind == 'h' {
+						// multi-valued header: Get / the receiver see the first value only
+						switch r2.intn(4) {
+						case 0:
+							h.existing = []string{"", "other"}
+						case 1:
+							if id != nil {
+								h.existing = []string{*id, "other"}
+							}
+						case 2:
+							if id != nil {
+								h.existing = []string{"", *id}
+							}
+						default:
+							if id != nil {
+								h.existing = []string{"other", *id}
+							}
+						}
 					}
 				}
 			}
